@@ -473,4 +473,104 @@ class Kills(SubCheck):
         io_selftest(env)
 
 
-SUBCHECKS = [Kills()]
+class AsyncKills(SubCheck):
+    """Supplementary, thorough tier only: the parent sends SIGKILL to a free-running child after a generated delay, so the
+    kill can land inside one SQLite call (statement execution, WAL write, checkpoint).  Not schedulable, hence not
+    replayable from its inputs: a failure's replay file records the workload and the delay, and the verdict is the same
+    oracle as for scheduled kills.  It never decides the property alone."""
+
+    name = 'async_kills_supplementary'
+
+    def examples(self, tier):
+        return 0 if tier == 'quick' else 150
+
+    def budget_s(self, tier):
+        return 600
+
+    def strategy(self, tier):
+        return st.fixed_dictionaries(
+            {
+                'delay_us': st.integers(0, 30000),
+                'file_values': st.booleans(),
+                'txn': st.booleans(),
+                'n_keys': st.integers(1, 6),
+            }
+        )
+
+    def execute(self, case, env):
+        import time as real_time
+
+        import diskcache
+
+        path = env.scratch.fresh('c07a')
+        r, w = os.pipe()
+        pid = os.fork()
+        if pid == 0:
+            try:
+                os.close(r)
+                c = diskcache.Cache(path, disk_min_file_size=64)
+                os.write(w, b'S')
+                j = 0
+                while True:
+                    j += 1
+                    k = 'k%d' % (j % case['n_keys'])
+                    v = bytes([j % 256]) * 300 if case['file_values'] else j
+                    if case['txn']:
+                        with c.transact():
+                            c.set(k, v)
+                            c.set(k + 'b', v)
+                    else:
+                        c.set(k, v)
+                    if j % 7 == 0:
+                        c.pop(k)
+            finally:
+                os._exit(0)
+        os.close(w)
+        try:
+            if os.read(r, 1) != b'S':
+                raise HarnessError('async child did not start')
+            real_time.sleep(case['delay_us'] / 1e6)
+            os.kill(pid, signal.SIGKILL)
+            os.waitpid(pid, 0)
+        finally:
+            os.close(r)
+        try:
+            desc = 'asynchronous SIGKILL %d us into a free-running writer (file_values=%r, txn=%r)' % (case['delay_us'], case['file_values'], case['txn'])
+            try:
+                c = diskcache.Cache(path, timeout=1)
+            except Exception as exc:
+                raise Violation('C07/async/cannot-open', '%s: reopening raised %r' % (desc, exc))
+            try:
+                bad = []
+                for k in c:
+                    v = c.get(k, 'MISSING-VALUE')
+                    if type(v) is str and v == 'MISSING-VALUE':
+                        bad.append(k)
+                    elif type(v) is bytes and (len(v) != 300 or v != bytes([v[0]]) * 300):
+                        raise Violation('C07/async/torn-value', '%s: key %r holds a torn value' % (desc, k))
+                    if case['txn'] and not k.endswith('b') and (k + 'b') in c and c.get(k + 'b') != v and type(v) is not str:
+                        raise Violation('C07/async/half-transaction', '%s: %r and %r were written in one transaction but differ' % (desc, k, k + 'b'))
+                if bad:
+                    raise Violation('C07/async/listed-key-without-value', '%s: keys %r are listed but unreadable' % (desc, bad))
+                c.set('__probe__', 1)
+                probs = Snapshot(path).problems(allow_orphans=True)
+                if probs:
+                    raise Violation('C07/async/audit/%s' % probs[0][0], '%s: %s' % (desc, short(probs, 300)))
+                from ..common import run_check
+
+                w1 = run_check(c)
+                other = [m for m in w1 if 'unknown file' not in m and 'empty directory' not in m]
+                if other:
+                    raise Violation('C07/async/check-reports', '%s: check() reports %s' % (desc, short(other, 300)))
+                run_check(c, fix=True)
+                w2 = run_check(c)
+                if w2:
+                    raise Violation('C07/async/repair-not-clean', '%s: after check(fix=True): %s' % (desc, short(w2, 300)))
+                return {'nontrivial': len(c) > 1, 'classes': ['async', 'debris' if w1 else 'clean']}
+            finally:
+                c.close()
+        finally:
+            env.scratch.drop(path)
+
+
+SUBCHECKS = [Kills(), AsyncKills()]
